@@ -22,6 +22,8 @@ pub enum Op {
     WriteAll(u32),
     /// one `write_vectored` call offering slices of these lengths
     WriteV(Vec<u32>),
+    /// one `write!` call whose 1..=4 string arguments have these lengths (literal pieces between them)
+    WriteFmt(Vec<u32>),
     Flush,
     PollOnce,
     /// poll until Pending or a terminal event
@@ -38,6 +40,7 @@ impl Op {
             Op::Write(n) => json!({ "write": n }),
             Op::WriteAll(n) => json!({ "write_all": n }),
             Op::WriteV(ns) => json!({ "write_vectored": ns }),
+            Op::WriteFmt(ns) => json!({ "write_fmt": ns }),
             Op::Flush => json!("flush"),
             Op::PollOnce => json!("poll"),
             Op::PollAll => json!("poll_until_pending"),
@@ -52,6 +55,9 @@ impl Op {
         }
         if let Some(n) = v.get("write_all") {
             return Op::WriteAll(n.as_u64().unwrap_or(0) as u32);
+        }
+        if let Some(ns) = v.get("write_fmt").and_then(|x| x.as_array()) {
+            return Op::WriteFmt(ns.iter().map(|n| n.as_u64().unwrap_or(0) as u32).collect());
         }
         if let Some(ns) = v.get("write_vectored").and_then(|x| x.as_array()) {
             return Op::WriteV(ns.iter().map(|n| n.as_u64().unwrap_or(0) as u32).collect());
@@ -90,14 +96,18 @@ pub struct StreamCase {
     pub extra_polls: usize,
     /// present a brand-new (non-equivalent) waker on every poll instead of the same one
     pub fresh_wakers: bool,
+    /// another stream with the same configuration is built, used and abandoned on this thread
+    /// first: 0 none, 1 write + abort, 2 write + flush + abort, 3 body dropped, then write + flush,
+    /// 4 writer dropped with unflushed data and the body never polled, 5 write + flush, half drained
+    pub prelude: u8,
 }
 
 impl StreamCase {
     pub fn raw(chunk: usize, ops: Vec<Op>) -> StreamCase {
-        StreamCase { method: "GET".into(), accept_encoding: None, chunk, gzip_level: None, via_parts: false, payload: Payload::Hash, ops, extra_polls: 2, fresh_wakers: false }
+        StreamCase { method: "GET".into(), accept_encoding: None, chunk, gzip_level: None, via_parts: false, payload: Payload::Hash, ops, extra_polls: 2, fresh_wakers: false, prelude: 0 }
     }
     pub fn gzip(chunk: usize, level: u32, ops: Vec<Op>) -> StreamCase {
-        StreamCase { method: "GET".into(), accept_encoding: Some(b"gzip".to_vec()), chunk, gzip_level: Some(level), via_parts: false, payload: Payload::Hash, ops, extra_polls: 2, fresh_wakers: false }
+        StreamCase { method: "GET".into(), accept_encoding: Some(b"gzip".to_vec()), chunk, gzip_level: Some(level), via_parts: false, payload: Payload::Hash, ops, extra_polls: 2, fresh_wakers: false, prelude: 0 }
     }
     pub fn to_json(&self) -> Value {
         json!({
@@ -110,6 +120,7 @@ impl StreamCase {
             "ops": self.ops.iter().map(|o| o.to_json()).collect::<Vec<_>>(),
             "extra_polls": self.extra_polls,
             "fresh_wakers": self.fresh_wakers,
+            "prelude": self.prelude,
         })
     }
     pub fn from_json(v: &Value) -> StreamCase {
@@ -130,6 +141,7 @@ impl StreamCase {
             ops: v["ops"].as_array().map(|a| a.iter().map(Op::from_json).collect()).unwrap_or_default(),
             extra_polls: v["extra_polls"].as_u64().unwrap_or(2) as usize,
             fresh_wakers: v["fresh_wakers"].as_bool().unwrap_or(false),
+            prelude: v["prelude"].as_u64().unwrap_or(0) as u8,
         }
     }
 }
@@ -261,8 +273,61 @@ pub fn build(case: &StreamCase) -> Option<(http::Response<SBody>, Option<SWriter
     Some(b.build::<Bytes, BoxError>())
 }
 
+/// The stream that precedes the case on this thread (see `StreamCase::prelude`). Whatever it
+/// does must leave no trace in the stream that follows.
+fn run_prelude(case: &StreamCase) {
+    let _ = crate::util::catch(|| {
+        let (resp, writer) = match build(case) {
+            Some(b) => b,
+            None => return,
+        };
+        let (_, body) = resp.into_parts();
+        let mut body = Some(Box::pin(body));
+        let mut writer = match writer {
+            Some(w) => w,
+            None => return,
+        };
+        let text = payload(Payload::Text, 7, 1500);
+        let w = Waker::from(Arc::new(CountWaker(AtomicU64::new(0))));
+        let mut cx = Context::from_waker(&w);
+        match case.prelude {
+            1 => {
+                let _ = writer.write_all(&text);
+                writer.abort("prelude abort".into());
+            }
+            2 => {
+                let _ = writer.write_all(&text);
+                let _ = writer.flush();
+                let _ = writer.write_all(&text[..700]);
+                writer.abort("prelude abort".into());
+            }
+            3 => {
+                let _ = writer.write_all(&text[..300]);
+                drop(body.take());
+                let _ = writer.write_all(&text);
+                let _ = writer.flush();
+            }
+            4 => {
+                let _ = writer.write_all(&text);
+            }
+            _ => {
+                let _ = writer.write_all(&text);
+                let _ = writer.flush();
+                if let Some(b) = body.as_mut() {
+                    let _ = poll_once(b, &mut cx);
+                }
+            }
+        }
+        drop(writer);
+        drop(body);
+    });
+}
+
 /// Runs the sequence; appends an implicit `DropWriter` and a final drain (+ extra polls).
 pub fn run_stream(case: &StreamCase) -> Option<StreamObs> {
+    if case.prelude != 0 {
+        run_prelude(case);
+    }
     let built = match crate::util::catch(|| build(case)) {
         Ok(Some(b)) => b,
         Ok(None) => return None,
@@ -314,6 +379,37 @@ pub fn run_stream(case: &StreamCase) -> Option<StreamObs> {
                             obs.accepted.extend_from_slice(&buf[..m]);
                         }
                         Res::Write { offered: *n, res: r.map_err(|e| format!("{:?}", e.kind())) }
+                    }
+                },
+                Op::WriteFmt(ns) => match writer.as_mut() {
+                    None => Res::Skipped,
+                    Some(w) => {
+                        // string arguments: the payload bytes folded into ASCII letters
+                        let mut args: Vec<String> = Vec::new();
+                        let mut at = obs.accepted.len() as u64;
+                        for n in ns.iter().take(4) {
+                            let raw = payload(case.payload, at, *n as usize);
+                            args.push(raw.iter().map(|b| (b'a' + b % 26) as char).collect());
+                            at += *n as u64 + 1;
+                        }
+                        let expected: String = match args.len() {
+                            0 => "<>".to_string(),
+                            1 => format!("<{}>", args[0]),
+                            2 => format!("<{}|{}>", args[0], args[1]),
+                            3 => format!("<{}|{}|{}>", args[0], args[1], args[2]),
+                            _ => format!("{}{}|{}>{}", args[0], args[1], args[2], args[3]),
+                        };
+                        let r = match args.len() {
+                            0 => write!(w, "<>"),
+                            1 => write!(w, "<{}>", args[0]),
+                            2 => write!(w, "<{}|{}>", args[0], args[1]),
+                            3 => write!(w, "<{}|{}|{}>", args[0], args[1], args[2]),
+                            _ => write!(w, "{}{}|{}>{}", args[0], args[1], args[2], args[3]),
+                        };
+                        if r.is_ok() {
+                            obs.accepted.extend_from_slice(expected.as_bytes());
+                        }
+                        Res::Unit(r.map_err(|e| format!("{:?}", e.kind())))
                     }
                 },
                 Op::WriteV(ns) => match writer.as_mut() {
